@@ -165,6 +165,25 @@ pub fn generate(g: &mut Gen, thorough: bool) {
         g.push(op_line("default", &[], &[], &format!("axisswap order={txt}"), "apply", dir, &data), "axisswap", true);
         g.push(format!("S_C11X\t{txt}\t{data}"), "oracle-axisswap", true);
     }
+    // the `inv` modifier on each of the three operators exchanges their directions
+    for l in all.iter().filter(|l| l.len() <= 4).step_by(if thorough { 1 } else { 7 }) {
+        let txt = l.iter().map(|x| x.to_string()).collect::<Vec<_>>().join(",");
+        g.push(format!("S_INVMOD\t{}\t{data}", crate::wire::escape(&format!("axisswap order={txt}"))), "oracle-inv-modifier", true);
+    }
+    for txt in ["2,3,1", "4,1,2,3", "2,-1", "-3,1,2,4", "3,-1,-2"] {
+        g.push(format!("S_INVMOD\t{}\t{data}", crate::wire::escape(&format!("axisswap order={txt}"))), "oracle-inv-modifier", true);
+        for dir in ["F", "I"] {
+            g.push(op_line("default", &[], &[], &format!("axisswap inv order={txt}"), "both", dir, &data), "axisswap-inv-modifier", true);
+        }
+    }
+    for (a, b) in [("km", "m"), ("deg", "rad"), ("ft", "us-ft"), ("grad", "deg")] {
+        g.push(format!("S_INVMOD\t{}\t{data}", crate::wire::escape(&format!("unitconvert xy_in={a} xy_out={b}"))), "oracle-inv-modifier", true);
+        g.push(format!("S_INVMOD\t{}\t{data}", crate::wire::escape(&format!("unitconvert z_in={a} z_out={b}"))), "oracle-inv-modifier", true);
+    }
+    for d in descs.iter().step_by(if thorough { 3 } else { 41 }) {
+        g.push(format!("S_INVMOD\t{}\t{data}", crate::wire::escape(&format!("adapt from={d}"))), "oracle-inv-modifier", true);
+        g.push(format!("S_INVMOD\t{}\t{data}", crate::wire::escape(&format!("adapt to={d} from=neuf_deg"))), "oracle-inv-modifier", true);
+    }
     for odd in ["1.5,2", "1,2.0", "1e0,2", "+1,2", "2,1,", ",", "0", "-0,1", "1:0:0,2", "nan", "inf,1", "1,1e300"] {
         g.push(op_line("default", &[], &[], &format!("axisswap order={odd}"), "apply", "F", &data), "axisswap-odd", true);
     }
